@@ -141,6 +141,8 @@ func lbTransitions(state, prop int) (newState, lineBreak, rule int) {
 	// LB15.
 	case lbQU | prSP<<32:
 		return lbQUSP, LineDontBreak, 70
+	case lbQUSP | prSP<<32:
+		return lbQUSP, LineDontBreak, 70
 	case lbQU | prOP<<32:
 		return lbOP, LineDontBreak, 150
 	case lbQUSP | prOP<<32:
@@ -154,6 +156,8 @@ func lbTransitions(state, prop int) (newState, lineBreak, rule int) {
 	case lbCP | prSP<<32:
 		return lbCLCPSP, LineDontBreak, 70
 	case lbNUCP | prSP<<32:
+		return lbCLCPSP, LineDontBreak, 70
+	case lbCLCPSP | prSP<<32:
 		return lbCLCPSP, LineDontBreak, 70
 	case lbCL | prNS<<32:
 		return lbNS, LineDontBreak, 160
@@ -170,6 +174,8 @@ func lbTransitions(state, prop int) (newState, lineBreak, rule int) {
 	case lbAny | prB2<<32:
 		return lbB2, LineCanBreak, 310
 	case lbB2 | prSP<<32:
+		return lbB2SP, LineDontBreak, 70
+	case lbB2SP | prSP<<32:
 		return lbB2SP, LineDontBreak, 70
 	case lbB2 | prB2<<32:
 		return lbB2, LineDontBreak, 170
